@@ -95,7 +95,7 @@ func (f fspace) kit() kit.Space {
 // keyPrefix maps a space to the function its keys are about: several spaces
 // can explore one function with different alphabets.
 func keyPrefix(space string) string {
-	for _, sfx := range []string{".words", ".invalid", ".ws", ".data", ".bytes", ".auto", ".utf8"} {
+	for _, sfx := range []string{".words", ".invalid", ".ws", ".data", ".bytes", ".auto", ".utf8", ".zones"} {
 		if strings.HasSuffix(space, sfx) {
 			return strings.TrimSuffix(space, sfx)
 		}
@@ -142,6 +142,9 @@ func normPanic(v any) string {
 		if i := strings.Index(s, " on "); i > 0 {
 			s = s[:i] + " on <kind> Value"
 		}
+	}
+	if i := strings.Index(s, " type: "); i >= 0 { // "cannot marshal type: chan int": the type is the input
+		s = s[:i] + " type: <type>"
 	}
 	if i := strings.IndexAny(s, "\"`"); i >= 0 {
 		s = s[:i] + "…" // drop quoted input
